@@ -170,3 +170,50 @@ where
         })
         .build_component()
 }
+
+#[cfg(mahf_verif)]
+impl ASParameters {
+    /// Constructor for the verification harness (all fields are private).
+    pub fn verif_new(
+        num_ants: usize,
+        alpha: f64,
+        beta: f64,
+        default_pheromones: f64,
+        evaporation: f64,
+        decay_coefficient: f64,
+    ) -> Self {
+        Self {
+            num_ants,
+            alpha,
+            beta,
+            default_pheromones,
+            evaporation,
+            decay_coefficient,
+        }
+    }
+}
+
+#[cfg(mahf_verif)]
+impl MMASParameters {
+    /// Constructor for the verification harness (all fields are private).
+    #[allow(clippy::too_many_arguments)]
+    pub fn verif_new(
+        num_ants: usize,
+        alpha: f64,
+        beta: f64,
+        default_pheromones: f64,
+        evaporation: f64,
+        max_pheromones: f64,
+        min_pheromones: f64,
+    ) -> Self {
+        Self {
+            num_ants,
+            alpha,
+            beta,
+            default_pheromones,
+            evaporation,
+            max_pheromones,
+            min_pheromones,
+        }
+    }
+}
